@@ -474,7 +474,7 @@ class BehavioralRTLIRTypeCheckVisitorL1( bir.BehavioralRTLIRNodeVisitor ):
     if -1 <= value <= 1:
       return 1
     if value < 0:
-      return (abs(value)-1).bit_length()
+      return (abs(value)-1).bit_length() + 1
     else:
       return value.bit_length()
 
